@@ -1,12 +1,13 @@
 //@ module: air_outcome
 //@ crate: aquavm-air
 //@ attach: air/src/farewell_step/outcome.rs
-//@ functions: from_uncatchable_error; InterpreterOutcome::new; CallRequestsRepr::serialize (empty map); execution_error_into_outcome is deliberately NOT asserted against (no public input reaching it is known)
+//@ functions: dedup (next-peer list); from_uncatchable_error; InterpreterOutcome::new; CallRequestsRepr::serialize (empty map); execution_error_into_outcome is deliberately NOT asserted against (no public input reaching it is known)
 //@ stubs: tracing span/dispatcher -> disabled; std::thread::current/park -> assume(false), Thread::unpark -> no-op; std::hash::RandomState::new -> fixed keys; alloc::fmt::format -> empty String
 //@ assumes: error = harness type with any i64 code and an empty message; data = 4 symbolic bytes, or empty
 //@ decides: C02: the outcome built for a preparation / uncatchable failure carries exactly the given previous data byte for byte, the error's code, no next peers, the encoding of an empty call-request map, and the limit flags unchanged
 //@ outside: that execute_air_impl routes every failing step to this function with raw_prev_data (farewell_if_fail! call sites need a full run); the success / catchable half of C02 (needs complete runs)
 //@ harness: name=c02_failure_outcome_returns_prev_data props=C02 cap=1800 cost=200 sym="data: 4 any bytes (and the empty data); error code: any i64; 3 limit flags: any" bound="data length in {0,4}"
+//@ harness: name=c19_dedup_next_peers props=C19 tier=thorough core=0 cap=2400 cost=600 sym="three peer names chosen symbolically from {p,q}" bound="list of 3; HashSet with fixed SipHash keys"
 
 use super::*;
 include!("_air_stubs.rs");
@@ -64,3 +65,20 @@ fn c02_failure_outcome_returns_prev_data() {
     std::mem::forget(empty_requests);
 }
 
+
+#[kani::proof]
+#[kani::unwind(8)]
+#[kani::stub(std::hash::RandomState::new, random_state_stub)]
+#[kani::stub(alloc::fmt::format, fmt_stub)]
+fn c19_dedup_next_peers() {
+    let picks: [bool; 3] = [kani::any(), kani::any(), kani::any()];
+    let name = |b: bool| if b { "p".to_string() } else { "q".to_string() };
+    let v = vec![name(picks[0]), name(picks[1]), name(picks[2])];
+    let out = dedup(v);
+    let has_p = picks[0] || picks[1] || picks[2];
+    let has_q = !picks[0] || !picks[1] || !picks[2];
+    kani::assert(out.len() == has_p as usize + has_q as usize, "C19: the next-peer list has no duplicates and loses nobody");
+    kani::assert(out.iter().any(|x| x == "p") == has_p && out.iter().any(|x| x == "q") == has_q, "C19: same set of peers");
+    kani::cover!(has_p && has_q, "both peers present");
+    std::mem::forget(out);
+}
